@@ -689,7 +689,7 @@ func (ex *Exec) wantInit(p *ssa.Package) bool {
 		return !strings.HasSuffix(path, "/logger")
 	}
 	switch path {
-	case "encoding/hex", "strconv", "math/bits", "unicode/utf8", "strings", "bytes", "encoding/binary":
+	case "encoding/hex", "strconv", "math/bits", "unicode/utf8", "strings", "bytes", "encoding/binary", "unicode":
 		return true
 	}
 	return false
